@@ -125,6 +125,7 @@ void muggle_async_logger_log(
 	{
 		return;
 	}
+	memset(msg, 0, sizeof(*msg));
 
 	// level
 	msg->level = level;
